@@ -102,6 +102,7 @@ package analysis
 //@        orderedT(graph, records#1[i#1].target, records#1[b].target))
 //@ loop #6
 //@   invariant [conflicts_only_grow] len(conflicts) >= len(loopentry(conflicts))
+//@   invariant [docker_groups_untouched] forall t string :: {has(dockerOutputs, t)} (has(dockerOutputs, t) <==> loopentry(has(dockerOutputs, t))) && (has(dockerOutputs, t) ==> dockerOutputs[t] == loopentry(dockerOutputs[t]))
 //@   invariant [file_map_records_are_nodes] forall t string, q int :: {fileMap[t][q]} has(fileMap, t) && 0 <= q && q < len(fileMap[t]) ==> recOK(graph, fileMap[t][q].target)
 //@ loop #7
 //@   invariant [conflicts_only_grow] len(conflicts) >= len(loopentry(conflicts))
